@@ -7,6 +7,8 @@ Request:  `run <nvars> <stmt> <stmt> …` where a statement token is one of
   `rm:<y>:<x>:<path>:<i>`   y = remove x[path][i]
   `co:<y>:<x>:<path>`       y = consume x[path]
   `sw:<x>:<px>:<y>:<py>`    swap x[px], y[py]
+  `up:<y>:<x>:<i>:<atom>`   y = x{i = atom}
+  `ca:<y>:<x>:<atom>`       y = x append atom
 and rhs is `n` | `i<int>` | `v<var>` | `l<atom>,<atom>,…` | `r<atom>*<count>`.
 Response: `<impl>\t<spec>\t<diag>`; impl/spec = `ok d1;d2;…` with one dump per statement,
 `+` (completed) or `!` (raised) followed by the canonical values of all variables joined by `|`;
@@ -44,6 +46,8 @@ def parseStmt (tok : String) : Option Stmt :=
   | ["rm", y, x, p, i] => do pure (.remove (← y.toNat?) (← x.toNat?) (← parsePath p) (← i.toInt?))
   | ["co", y, x, p] => do pure (.consume (← y.toNat?) (← x.toNat?) (← parsePath p))
   | ["sw", x, px, y, py] => do pure (.swap (← x.toNat?) (← parsePath px) (← y.toNat?) (← parsePath py))
+  | ["up", y, x, i, a] => do pure (.update (← y.toNat?) (← x.toNat?) (← i.toInt?) (← parseAtom a))
+  | ["ca", y, x, a] => do pure (.callAppend (← y.toNat?) (← x.toNat?) (← parseAtom a))
   | _ => none
 
 def dump (ok : Bool) (ts : List Store.Tree) : String :=
